@@ -12,6 +12,7 @@ import (
 	"os"
 	"strings"
 	"sync"
+	"sync/atomic"
 	"testing"
 	"time"
 
@@ -66,6 +67,11 @@ type laboratory struct {
 	gzipSeen int
 	httpErrs []string
 
+	// how many requests the collectors were handling at the same time (only
+	// used to classify concurrent cases)
+	inflight    atomic.Int32
+	maxInflight atomic.Int32
+
 	traceExp  map[string]*otlptrace.Exporter
 	metricGE  map[bool]*otlpmetricgrpc.Exporter
 	metricHE  map[bool]*otlpmetrichttp.Exporter
@@ -82,6 +88,8 @@ type traceSvc struct {
 }
 
 func (s *traceSvc) Export(_ context.Context, req *coltracepb.ExportTraceServiceRequest) (*coltracepb.ExportTraceServiceResponse, error) {
+	s.l.enter()
+	defer s.l.leave()
 	s.l.capMu.Lock()
 	s.l.traceG = append(s.l.traceG, req)
 	s.l.capMu.Unlock()
@@ -94,6 +102,8 @@ type metricSvc struct {
 }
 
 func (s *metricSvc) Export(_ context.Context, req *colmetricpb.ExportMetricsServiceRequest) (*colmetricpb.ExportMetricsServiceResponse, error) {
+	s.l.enter()
+	defer s.l.leave()
 	s.l.capMu.Lock()
 	s.l.metricG = append(s.l.metricG, req)
 	s.l.capMu.Unlock()
@@ -106,11 +116,26 @@ type logSvc struct {
 }
 
 func (s *logSvc) Export(_ context.Context, req *collogpb.ExportLogsServiceRequest) (*collogpb.ExportLogsServiceResponse, error) {
+	s.l.enter()
+	defer s.l.leave()
 	s.l.capMu.Lock()
 	s.l.logG = append(s.l.logG, req)
 	s.l.capMu.Unlock()
 	return &collogpb.ExportLogsServiceResponse{}, nil
 }
+
+// enter / leave bracket the handling of one request.
+func (l *laboratory) enter() {
+	n := l.inflight.Add(1)
+	for {
+		m := l.maxInflight.Load()
+		if n <= m || l.maxInflight.CompareAndSwap(m, n) {
+			return
+		}
+	}
+}
+
+func (l *laboratory) leave() { l.inflight.Add(-1) }
 
 // body returns the (inflated) request body.
 func (l *laboratory) body(r *http.Request) ([]byte, error) {
@@ -143,6 +168,8 @@ func (l *laboratory) httpFail(w http.ResponseWriter, what string, err error) {
 
 func otlpHandler[M proto.Message](l *laboratory, what string, fresh func() M, store func(M)) http.HandlerFunc {
 	return func(w http.ResponseWriter, r *http.Request) {
+		l.enter()
+		defer l.leave()
 		b, err := l.body(r)
 		if err != nil {
 			l.httpFail(w, what+" body", err)
@@ -213,6 +240,7 @@ func (l *laboratory) clearCaptures() {
 	l.gzipSeen = 0
 	l.httpErrs = nil
 	l.capMu.Unlock()
+	l.maxInflight.Store(0)
 }
 
 // dropExporters shuts the cached exporters down (they are rebuilt lazily).
